@@ -265,3 +265,38 @@ package proj
 //@   loop 1 `for {`
 //@     invariant 0 <= i && i <= 6
 //@     decreases 6 - i
+
+//@ -- datum shift (geocentric Helmert) as in proj4js lib/datum.js geocentric_to_wgs84 / geocentric_from_wgs84
+//@ pred dp3(d *datum) = d != nil && d.datum_type == pjd3Param && len(d.datum_params) >= 3
+//@ pred dp7(d *datum) = d != nil && d.datum_type == pjd7Param && len(d.datum_params) >= 7
+
+//@ func (this *datum) geocentric_to_wgs84
+//@   prop C09
+//@   mode real
+//@   requires [params] this != nil && (this.datum_type == pjd3Param ==> len(this.datum_params) >= 3) && (this.datum_type == pjd7Param ==> len(this.datum_params) >= 7)
+//@   ensures [shift3] dp3(this) ==> result0 == x@0 + this.datum_params[0] && result1 == y@0 + this.datum_params[1] && result2 == z@0 + this.datum_params[2]
+//@   ensures [helmert7] dp7(this) ==> result0 == this.datum_params[6] * (x@0 - this.datum_params[5] * y@0 + this.datum_params[4] * z@0) + this.datum_params[0] && result1 == this.datum_params[6] * (this.datum_params[5] * x@0 + y@0 - this.datum_params[3] * z@0) + this.datum_params[1] && result2 == this.datum_params[6] * (-this.datum_params[4] * x@0 + this.datum_params[3] * y@0 + z@0) + this.datum_params[2]
+//@   ensures [identity] this.datum_type != pjd3Param && this.datum_type != pjd7Param ==> result0 == x@0 && result1 == y@0 && result2 == z@0
+//@   modifies nothing
+
+//@ func (this *datum) geocentric_from_wgs84
+//@   prop C09
+//@   mode real
+//@   requires [params] this != nil && (this.datum_type == pjd3Param ==> len(this.datum_params) >= 3) && (this.datum_type == pjd7Param ==> len(this.datum_params) >= 7)
+//@   ensures [shift3] dp3(this) ==> result0 == x@0 - this.datum_params[0] && result1 == y@0 - this.datum_params[1] && result2 == z@0 - this.datum_params[2]
+//@   ensures [helmert7] dp7(this) ==> result0 == (x@0 - this.datum_params[0]) / this.datum_params[6] + this.datum_params[5] * ((y@0 - this.datum_params[1]) / this.datum_params[6]) - this.datum_params[4] * ((z@0 - this.datum_params[2]) / this.datum_params[6]) && result1 == -this.datum_params[5] * ((x@0 - this.datum_params[0]) / this.datum_params[6]) + (y@0 - this.datum_params[1]) / this.datum_params[6] + this.datum_params[3] * ((z@0 - this.datum_params[2]) / this.datum_params[6]) && result2 == this.datum_params[4] * ((x@0 - this.datum_params[0]) / this.datum_params[6]) - this.datum_params[3] * ((y@0 - this.datum_params[1]) / this.datum_params[6]) + (z@0 - this.datum_params[2]) / this.datum_params[6]
+//@   ensures [identity] this.datum_type != pjd3Param && this.datum_type != pjd7Param ==> result0 == x@0 && result1 == y@0 && result2 == z@0
+//@   modifies nothing
+
+//@ -- 1.5723671231216916 is Go's (and JavaScript's) double for 1.001*HALF_PI
+//@ spec gcLat(lat float64) float64 = (lat < -(math.Pi / 2) && lat > -1.5723671231216916) ? -(math.Pi / 2) : ((lat > math.Pi / 2 && lat < 1.5723671231216916) ? math.Pi / 2 : lat)
+//@ spec gcLon(lon float64) float64 = lon > math.Pi ? lon - 2 * math.Pi : lon
+//@ spec gcRn(a float64, es float64, lat float64) float64 = a / sqrt(1.0 - es * (sin(lat) * sin(lat)))
+
+//@ func (this *datum) geodetic_to_geocentric
+//@   prop C09
+//@   mode real
+//@   requires [datum] this != nil
+//@   ensures [out_of_range] (err != nil) <==> (gcLat(Latitude@0) < -(math.Pi / 2) || gcLat(Latitude@0) > math.Pi / 2)
+//@   ensures [xyz] err == nil ==> X == (gcRn(this.a, this.es, gcLat(Latitude@0)) + Height) * cos(gcLat(Latitude@0)) * cos(gcLon(Longitude@0)) && Y == (gcRn(this.a, this.es, gcLat(Latitude@0)) + Height) * cos(gcLat(Latitude@0)) * sin(gcLon(Longitude@0)) && Z == (gcRn(this.a, this.es, gcLat(Latitude@0)) * (1 - this.es) + Height) * sin(gcLat(Latitude@0))
+//@   modifies nothing
